@@ -40,6 +40,37 @@ from gemato.verify import (
     )
 
 
+def sort_manifests_children_first(manifests):
+    """
+    Reorder the (manifest_path, dir_path, manifest) tuples in @manifests
+    so that every Manifest referenced by a MANIFEST entry precedes
+    the Manifest containing that entry. Directory depth alone does not
+    guarantee that when a Manifest references another Manifest
+    in the same directory (e.g. Manifest -> Manifest.files.gz).
+    The order is preserved otherwise.
+    """
+    remaining = list(manifests)
+    ret = []
+    while remaining:
+        pending = frozenset(x[0] for x in remaining)
+        blocked = []
+        for x in remaining:
+            mpath, relpath, m = x
+            if any(e.tag == 'MANIFEST'
+                   and os.path.join(relpath, e.path) != mpath
+                   and os.path.join(relpath, e.path) in pending
+                   for e in m.entries):
+                blocked.append(x)
+            else:
+                ret.append(x)
+        if len(blocked) == len(remaining):
+            # reference cycle, keep the remaining ones as they were
+            ret.extend(blocked)
+            break
+        remaining = blocked
+    return ret
+
+
 class ManifestLoader:
     """
     Helper class to load Manifests in subprocesses.
@@ -752,8 +783,8 @@ class ManifestRecursiveLoader:
 
         fixed_manifests = set()
         renamed_manifests = {}
-        for mpath, relpath, m in self._iter_manifests_for_path(
-                '', recursive=True):
+        for mpath, relpath, m in sort_manifests_children_first(
+                self._iter_manifests_for_path('', recursive=True)):
             for e in m.entries:
                 if e.tag != 'MANIFEST':
                     continue
